@@ -248,6 +248,10 @@ def run(R, tier):
             TD.check_subtree(R, "R15.7", tree, [b"STATus", reg], [(b"EVENt", "Leaf", True, "EventCommand", ga), (b"CONDition", "Leaf", False, "ConditionCommand", ga), (b"ENABle", "Leaf", False, "EnableCommand", ga),
                                                                     (b"NTRansition", "Leaf", False, "NTransitionCommand", ga), (b"PTRansition", "Leaf", False, "PTransitionCommand", ga)], where=tb.span)
 
+    # ---- R15.8 histories: condition changes and STATus commands on one device, end to end -----------------------------------
+    from . import histtable as HT
+    HT.check(R, "R15.8", "registers", tier, "histories of device-side condition changes (set_condition folded) and STATus:OPERation / QUEStionable commands (ENABle, PTRansition, NTRansition, [:EVENt]?, CONDition?, PRESet), *CLS and *STB? through Node::run on the witness device: after every step the event registers hold exactly the filtered transitions since their last read or clear and every answer is the register's word with bit 15 clear", 80)
+
 
 def _reg_after(DM, uc, r, cell):
     """values of a register that was passed by reference: the cell travels in the state as argument 1 of the frame;
